@@ -423,7 +423,11 @@ def rule_nmifloor(ctx):
             yield o
 
 
+
+
 RULES = [
+    ("C16.NARROWDTYPE", 3, common.rule_narrowdtype("C16.NARROWDTYPE", ("segment.py", "util.py"))),
+    ("C16.HELPERDEFAULTS", 3, common.rule_helperdefaults("C16.HELPERDEFAULTS")),
     ("C16.ARIFORM", 1, rule_ariform),
     ("C16.KWVIEW", 3, common.shared("c03", "rule_kwview", "C16.KWVIEW", keep=lambda o: o.construct.startswith("segment."))),
     ("C16.NCEGUARD", 2, common.shared("c12", "rule_nceguard", "C16.NCEGUARD")),
